@@ -89,6 +89,9 @@ func loadAndRun(cfg LoadConfig, specDir string, ruleIDs []string) (obs []Ob, err
 			obs = append(obs, r.Run(p)...)
 		}
 	}
+	for i := range obs {
+		obs[i].Props = withDependants(obs[i].Props)
+	}
 	return obs, nil
 }
 
